@@ -85,6 +85,7 @@ def check_filters(jobs: list[dict], scratch: Path, model_ok: bool, res: dict) ->
     dist = res['distribution']
     d_nodes, d_depth, d_kinds, d_zone, d_off, d_obs, d_leafspell = (collections.Counter() for _ in range(7))
     d_build = collections.Counter()
+    d_hits = collections.Counter()
     crossday = collections.Counter()
     seen = set()
     files: list[tuple[Path, list]] = []      # (file, [(job index, expr index, [point indices])])
@@ -147,6 +148,16 @@ def check_filters(jobs: list[dict], scratch: Path, model_ok: bool, res: dict) ->
                 d_kinds[kind] += 1
                 d_zone[zone] += 1
                 d_off[off] += 1
+                if kind == 'time-bound':
+                    for node in G.expr_nodes(e):
+                        if node[0] == 'time':
+                            for which, b in (('lower', node[1]), ('upper', node[2])):
+                                if b is not None and -1 <= loc['tod'] - b <= 1:
+                                    d_hits[f'{which} bound {["1 ns before", "exactly at", "1 ns after"][loc["tod"] - b + 1]}'] += 1
+                elif kind == 'local-midnight' and loc['tod'] in (0, 1, O.DAY_NS - 1):
+                    d_hits[{0: 'local midnight exactly', 1: '1 ns after local midnight'}.get(loc['tod'], '1 ns before local midnight')] += 1
+                elif kind in ('month-end', 'month-start') and loc['tod'] in (0, O.DAY_NS - 1):
+                    d_hits['last ns of a month' if loc['tod'] else 'first ns of a month'] += 1
                 uwd = O.utc_weekday(inst)
                 if uwd != loc['wd']:
                     crossday['utc weekday != local weekday'] += 1
@@ -209,6 +220,7 @@ def check_filters(jobs: list[dict], scratch: Path, model_ok: bool, res: dict) ->
     dist['evaluations_per_zone'] = dict(d_zone)
     dist['utc_offsets_seen_s'] = {str(k): v for k, v in sorted(d_off.items())}
     dist['allow_answers'] = dict(d_obs)
+    dist['boundary_instants_hit'] = dict(d_hits)
     dist['weekday_shift_against_utc'] = dict(crossday)
     dist['cycle'] = '2000-01-01 .. 2027-12-31 (10227 days)'
     if not model_ok:
@@ -442,4 +454,7 @@ def replay_known(prop: str, f: dict, scratch: Path):
     else:
         check_parser([{'dom': case['dom'], 'args': case['args'], 'builder': case.get('builder', True),
                        'stream': 'replay'}], scratch, False, res)
-    return bool(res['spec_violations'])
+    # inputs outside the model's value domain (iterators, bytes, code points >= U+0250) are reported as
+    # observations by run(); a pinned finding about such an input still reproduces when the oracle objects
+    obs = [o for o in res['extra'].get('observations_not_counted_as_violations', []) if 'denotes' in o.get('note', '')]
+    return bool(res['spec_violations'] or obs)
